@@ -136,7 +136,7 @@ def _lean_check(path, timeout_s=1800):
     out = p.stdout + "\n" + p.stderr
     src = open(path).read().splitlines()
     import_line = max([k + 1 for k, l in enumerate(src) if l.startswith("import ")] or [0])
-    errors = [(int(m.group(1)), m.group(2)) for m in re.finditer(r"^[^\n:]*:(\d+):\d+: error: ([^\n]*)", out, re.M)]
+    errors = [(int(m.group(1)), m.group(2)) for m in re.finditer(r"^[^\n:]*:(\d+):\d+: error[^:\n]*: ([^\n]*)", out, re.M)]
     if any(ln <= import_line for ln, _ in errors) or (p.returncode != 0 and not errors):
         # the imports did not load / lean crashed without a diagnostic about the file's own text
         return "unavailable", ("lean could not load its imports or crashed: " + (errors[0][1] if errors else out.strip()[:200]))[:300], {}, ms()
